@@ -546,12 +546,42 @@ def inline_local_defs(fn):
 # ---------------------------------------------------------------------------
 # small expression idioms
 
+_NP_METHODS = {"argmax", "argmin", "min", "max", "mean", "std", "sum",
+               "any", "all", "cumsum", "ptp", "var", "nonzero"}
+
+
 class Idioms3(ast.NodeTransformer):
     MAX = 12
 
     def visit_Call(self, node):
         self.generic_visit(node)
         fn = norm(node.func)
+        # numpy method form -> function form: x.argmax() -> np.argmax(x)
+        if isinstance(node.func, ast.Attribute) and \
+                node.func.attr in _NP_METHODS and not (
+                    isinstance(node.func.value, ast.Name)
+                    and node.func.value.id in ("np", "numpy", "math", "self",
+                                               "cls", "builtins")) and \
+                not any(isinstance(a, ast.Starred) for a in node.args):
+            return ast.copy_location(ast.Call(
+                func=ast.Attribute(value=ast.Name(id="np", ctx=ast.Load()),
+                                   attr=node.func.attr, ctx=ast.Load()),
+                args=[node.func.value] + node.args,
+                keywords=node.keywords), node)
+        # np.array(x, copy=True) -> np.copy(x); np.absolute -> np.abs
+        if fn in ("np.array", "numpy.array") and len(node.args) == 1 and \
+                len(node.keywords) == 1 and node.keywords[0].arg == "copy" \
+                and isinstance(node.keywords[0].value, ast.Constant) and \
+                node.keywords[0].value.value is True:
+            return ast.copy_location(ast.Call(
+                func=ast.Attribute(value=ast.Name(id="np", ctx=ast.Load()),
+                                   attr="copy", ctx=ast.Load()),
+                args=node.args, keywords=[]), node)
+        if fn in ("np.absolute", "numpy.absolute"):
+            node.func = ast.copy_location(ast.Attribute(
+                value=ast.Name(id="np", ctx=ast.Load()), attr="abs",
+                ctx=ast.Load()), node.func)
+            return node
         # getattr(x, "name") -> x.name
         if fn == "getattr" and len(node.args) == 2 and not node.keywords \
                 and isinstance(node.args[1], ast.Constant) and isinstance(
@@ -560,29 +590,71 @@ class Idioms3(ast.NodeTransformer):
             return ast.copy_location(ast.Attribute(
                 value=node.args[0], attr=node.args[1].value,
                 ctx=ast.Load()), node)
-        # operator.attrgetter("a") -> lambda o: o.a
-        if fn in ("operator.attrgetter", "attrgetter") and \
-                len(node.args) == 1 and isinstance(
-                    node.args[0], ast.Constant) and isinstance(
-                    node.args[0].value, str) and \
-                node.args[0].value.isidentifier():
+        # operator.attrgetter("a"[, "b"]) -> lambda o: o.a | (o.a, o.b)
+        if fn in ("operator.attrgetter", "attrgetter",
+                  "operator.itemgetter", "itemgetter") and node.args and \
+                not node.keywords and all(isinstance(
+                    a, ast.Constant) for a in node.args):
+            attr = fn.endswith("attrgetter")
+            if attr and not all(isinstance(a.value, str)
+                                and a.value.isidentifier()
+                                for a in node.args):
+                return node
+            parts = []
+            for a in node.args:
+                o = ast.Name(id="_o", ctx=ast.Load())
+                parts.append(ast.Attribute(value=o, attr=a.value,
+                                           ctx=ast.Load()) if attr else
+                             ast.Subscript(value=o, slice=a, ctx=ast.Load()))
+            body = parts[0] if len(parts) == 1 else ast.Tuple(
+                elts=parts, ctx=ast.Load())
             return ast.copy_location(ast.Lambda(
                 args=ast.arguments(posonlyargs=[], args=[ast.arg(
                     arg="_o")], vararg=None, kwonlyargs=[], kw_defaults=[],
-                    kwarg=None, defaults=[]),
-                body=ast.Attribute(value=ast.Name(id="_o", ctx=ast.Load()),
-                                   attr=node.args[0].value, ctx=ast.Load())),
-                node)
-        if fn in ("operator.itemgetter", "itemgetter") and \
-                len(node.args) == 1 and isinstance(node.args[0],
-                                                   ast.Constant):
-            return ast.copy_location(ast.Lambda(
-                args=ast.arguments(posonlyargs=[], args=[ast.arg(
-                    arg="_o")], vararg=None, kwonlyargs=[], kw_defaults=[],
-                    kwarg=None, defaults=[]),
-                body=ast.Subscript(value=ast.Name(id="_o", ctx=ast.Load()),
-                                   slice=node.args[0], ctx=ast.Load())),
-                node)
+                    kwarg=None, defaults=[]), body=body), node)
+        # C.__contains__(x) -> x in C
+        if isinstance(node.func, ast.Attribute) and \
+                node.func.attr == "__contains__" and len(node.args) == 1 \
+                and not node.keywords:
+            return ast.copy_location(ast.Compare(
+                left=node.args[0], ops=[ast.In()],
+                comparators=[node.func.value]), node)
+        # filter(P, IT) / itertools.filterfalse(P, IT) -> list comprehension
+        if fn in ("filter", "itertools.filterfalse", "filterfalse") and \
+                len(node.args) == 2 and not node.keywords and not (
+                    isinstance(node.args[0], ast.Constant)):
+            pred = node.args[0]
+            var = ast.Name(id="_x", ctx=ast.Load())
+            if isinstance(pred, ast.Attribute) and \
+                    pred.attr == "__contains__":
+                test = ast.Compare(left=var, ops=[ast.In()],
+                                   comparators=[pred.value])
+            elif isinstance(pred, ast.Lambda) and len(
+                    pred.args.args) == 1:
+                test = _SubstNames({pred.args.args[0].arg: var}).visit(
+                    clone(pred.body))
+            else:
+                test = ast.Call(func=pred, args=[var], keywords=[])
+            if fn != "filter":
+                test = ast.UnaryOp(op=ast.Not(), operand=test)
+            new = ast.ListComp(
+                elt=ast.Name(id="_x", ctx=ast.Load()),
+                generators=[ast.comprehension(
+                    target=ast.Name(id="_x", ctx=ast.Store()),
+                    iter=node.args[1], ifs=[test], is_async=0)])
+            return ast.copy_location(new, node)
+        # list(<list comprehension>) -> the comprehension
+        if fn == "list" and len(node.args) == 1 and not node.keywords and \
+                isinstance(node.args[0], ast.ListComp):
+            return node.args[0]
+        # list((a, b)) / tuple([a, b]) / list([a, b]) -> display
+        if fn in ("list", "tuple") and len(node.args) == 1 and \
+                not node.keywords and isinstance(
+                    node.args[0], (ast.Tuple, ast.List)) and not any(
+                    isinstance(e, ast.Starred) for e in node.args[0].elts):
+            cls = ast.List if fn == "list" else ast.Tuple
+            return ast.copy_location(cls(elts=node.args[0].elts,
+                                         ctx=ast.Load()), node)
         # zip([a, b], [c, d]) -> [(a, c), (b, d)]
         if fn == "zip" and len(node.args) >= 2 and not node.keywords and all(
                 isinstance(a, (ast.List, ast.Tuple)) for a in node.args) \
@@ -617,6 +689,26 @@ class Idioms3(ast.NodeTransformer):
                           ctx=ast.Load())
                 for i, e in enumerate(node.args[0].elts)], ctx=ast.Load()),
                 node)
+        return node
+
+    def visit_Subscript(self, node):
+        self.generic_visit(node)
+        # x[slice(a, b, c)] -> x[a:b:c]
+        sl = node.slice
+        if isinstance(sl, ast.Call) and isinstance(sl.func, ast.Name) and \
+                sl.func.id == "slice" and not sl.keywords and 1 <= len(
+                    sl.args) <= 3:
+            def part(a):
+                return None if (isinstance(a, ast.Constant)
+                                and a.value is None) else a
+            args = list(sl.args)
+            if len(args) == 1:
+                lo, hi, stp = None, part(args[0]), None
+            else:
+                lo, hi = part(args[0]), part(args[1])
+                stp = part(args[2]) if len(args) == 3 else None
+            node.slice = ast.copy_location(ast.Slice(lower=lo, upper=hi,
+                                                     step=stp), sl)
         return node
 
     def visit_Expr(self, node):
@@ -785,6 +877,58 @@ def merge_appends(fn):
                 i += 1
 
 
+def filtered_loops(fn):
+    """`xs = [v for v in IT if C]` directly followed by `for k in xs: BODY`
+    (xs used nowhere else), or the comprehension as the loop's iterable ->
+    `for k in list(IT): if C: BODY` (the snapshot of IT is kept)"""
+    done = False
+    for par in [fn] + list(_walk_own(fn)):
+        for fld in ("body", "orelse", "finalbody"):
+            blk = getattr(par, fld, None)
+            if not isinstance(blk, list):
+                continue
+            i = 0
+            while i < len(blk):
+                st = blk[i]
+                if isinstance(st, ast.Assign) and len(st.targets) == 1 and \
+                        isinstance(st.targets[0], ast.Name) and isinstance(
+                            st.value, ast.ListComp) and i + 1 < len(blk) \
+                        and isinstance(blk[i + 1], ast.For) and isinstance(
+                            blk[i + 1].iter, ast.Name) and \
+                        blk[i + 1].iter.id == st.targets[0].id and sum(
+                            1 for n in ast.walk(fn) if isinstance(
+                                n, ast.Name) and n.id == st.targets[0].id
+                        ) == 2:
+                    blk[i + 1].iter = st.value
+                    del blk[i]
+                    done = True
+                    continue
+                if isinstance(st, ast.For) and isinstance(
+                        st.iter, ast.ListComp) and len(
+                        st.iter.generators) == 1 and isinstance(
+                        st.target, ast.Name) and not st.orelse:
+                    g = st.iter.generators[0]
+                    if isinstance(g.target, ast.Name) and isinstance(
+                            st.iter.elt, ast.Name) and \
+                            st.iter.elt.id == g.target.id and g.ifs:
+                        cond = g.ifs[0] if len(g.ifs) == 1 else ast.BoolOp(
+                            op=ast.And(), values=list(g.ifs))
+                        cond = _rename(cond, g.target.id, st.target.id)
+                        it = g.iter
+                        if not (isinstance(it, ast.Call) and norm(
+                                it.func) in ("list", "tuple", "sorted")):
+                            it = ast.Call(func=ast.Name(id="list",
+                                                        ctx=ast.Load()),
+                                          args=[it], keywords=[])
+                        st.iter = it
+                        st.body = [ast.If(test=cond, body=st.body,
+                                          orelse=[])]
+                        ast.fix_missing_locations(st)
+                        done = True
+                i += 1
+    return done
+
+
 class ItemsLoops(ast.NodeTransformer):
     """`for k, v in D.items(): ... v ...` -> `for k in D: ... D[k] ...`
     (D a name/attribute/constant-subscript chain, v and k and the base of D
@@ -857,3 +1001,349 @@ def sort_keywords(tree):
             if star and n.keywords[-len(star):] != star:
                 continue
             n.keywords = sorted(named, key=lambda k: k.arg) + star
+
+
+# ---------------------------------------------------------------------------
+# next(<generator>, default) look-ups -> the loops they abbreviate
+
+def _terminates(stmts):
+    return bool(stmts) and isinstance(stmts[-1], (ast.Raise, ast.Return))
+
+
+def _rename(node, old, new):
+    class R(ast.NodeTransformer):
+        def visit_Name(self, n):
+            if n.id == old:
+                return ast.copy_location(ast.Name(id=new, ctx=n.ctx), n)
+            return n
+    return R().visit(node)
+
+
+def next_loops(fn):
+    """`x = next((v for v in IT if C), None)` + `if x is None: raise/return`
+    -> `for x in IT: if C: break` + `else: raise/return`;
+    `f = next((E for v in IT if C), D)` + `if f [is not D]: BODY` (f not
+    used afterwards) -> `for v in IT: if C: BODY; break`.
+    A generator bound to a name that is only passed to that next() is
+    inlined first."""
+    changed = False
+    all_names = [n.id for n in ast.walk(fn) if isinstance(n, ast.Name)]
+    for par in [fn] + list(_walk_own(fn)):
+        for fld in ("body", "orelse", "finalbody"):
+            blk = getattr(par, fld, None)
+            if not isinstance(blk, list):
+                continue
+            i = 0
+            while i < len(blk):
+                st = blk[i]
+                # g = (generator); x = next(g, D)  -> inline
+                if isinstance(st, ast.Assign) and len(st.targets) == 1 and \
+                        isinstance(st.targets[0], ast.Name) and isinstance(
+                            st.value, ast.GeneratorExp) and \
+                        all_names.count(st.targets[0].id) == 2 and \
+                        i + 1 < len(blk):
+                    nx = blk[i + 1]
+                    g = st.targets[0].id
+                    if isinstance(nx, ast.Assign) and isinstance(
+                            nx.value, ast.Call) and norm(
+                            nx.value.func) == "next" and nx.value.args and \
+                            isinstance(nx.value.args[0], ast.Name) and \
+                            nx.value.args[0].id == g:
+                        nx.value.args[0] = st.value
+                        del blk[i]
+                        changed = True
+                        continue
+                if not (isinstance(st, ast.Assign) and len(st.targets) == 1
+                        and isinstance(st.targets[0], ast.Name)
+                        and isinstance(st.value, ast.Call)
+                        and norm(st.value.func) == "next"
+                        and len(st.value.args) == 2
+                        and not st.value.keywords
+                        and isinstance(st.value.args[0], ast.GeneratorExp)
+                        and len(st.value.args[0].generators) == 1
+                        and i + 1 < len(blk)
+                        and isinstance(blk[i + 1], ast.If)):
+                    i += 1
+                    continue
+                gen = st.value.args[0]
+                g0 = gen.generators[0]
+                dflt = st.value.args[1]
+                x = st.targets[0].id
+                nx = blk[i + 1]
+                if g0.is_async or not isinstance(g0.target, ast.Name) or \
+                        not isinstance(dflt, (ast.Constant, ast.Name)):
+                    i += 1
+                    continue
+                v = g0.target.id
+                cond = g0.ifs[0] if len(g0.ifs) == 1 else (
+                    ast.BoolOp(op=ast.And(), values=list(g0.ifs))
+                    if g0.ifs else ast.Constant(value=True))
+                # what does the following `if` test?
+                t = nx.test
+                neg = False
+                if isinstance(t, ast.UnaryOp) and isinstance(t.op, ast.Not):
+                    t, neg = t.operand, True
+                found = None      # polarity of "an item was found"
+                if isinstance(t, ast.Name) and t.id == x and isinstance(
+                        dflt, ast.Constant) and dflt.value is False and \
+                        isinstance(gen.elt, ast.Constant) and \
+                        gen.elt.value is True:
+                    found = not neg
+                elif isinstance(t, ast.Compare) and len(t.ops) == 1 and \
+                        isinstance(t.left, ast.Name) and t.left.id == x and \
+                        norm(t.comparators[0]) == norm(dflt) and isinstance(
+                            t.ops[0], (ast.Is, ast.IsNot)) and not (
+                            isinstance(gen.elt, ast.Constant)):
+                    found = isinstance(t.ops[0], ast.IsNot) != neg
+                if found is None:
+                    i += 1
+                    continue
+                uses_x_later = any(
+                    isinstance(n, ast.Name) and n.id == x
+                    for s in blk[i + 2:] for n in ast.walk(s))
+                # P1: not found -> terminate; the item is used afterwards
+                if not found and not nx.orelse and _terminates(nx.body) and \
+                        isinstance(gen.elt, ast.Name) and gen.elt.id == v \
+                        and all_names.count(v) == sum(
+                            1 for n in ast.walk(gen)
+                            if isinstance(n, ast.Name) and n.id == v):
+                    loop = ast.For(
+                        target=ast.Name(id=x, ctx=ast.Store()),
+                        iter=g0.iter,
+                        body=[ast.If(test=_rename(cond, v, x),
+                                     body=[ast.Break()], orelse=[])],
+                        orelse=nx.body, type_comment=None)
+                    ast.copy_location(loop, st)
+                    ast.fix_missing_locations(loop)
+                    blk[i:i + 2] = [loop]
+                    changed = True
+                    i += 1
+                    continue
+                # P2: found -> BODY, the flag is not used afterwards
+                if found and not nx.orelse and not uses_x_later and not any(
+                        isinstance(n, ast.Name) and n.id == v
+                        for s in nx.body for n in ast.walk(s)) and \
+                        all_names.count(v) == sum(
+                            1 for n in ast.walk(gen)
+                            if isinstance(n, ast.Name) and n.id == v):
+                    body = [_SubstNames({x: gen.elt}).visit(s)
+                            for s in nx.body]
+                    loop = ast.For(
+                        target=ast.Name(id=v, ctx=ast.Store()),
+                        iter=g0.iter,
+                        body=[ast.If(test=cond, body=body + [ast.Break()],
+                                     orelse=[])],
+                        orelse=[], type_comment=None)
+                    ast.copy_location(loop, st)
+                    ast.fix_missing_locations(loop)
+                    blk[i:i + 2] = [loop]
+                    changed = True
+                    i += 1
+                    continue
+                i += 1
+    return changed
+
+
+def inline_module_lambdas(tree):
+    """a private module-level name bound once to a lambda (e.g. what an
+    `operator.itemgetter(...)` became) and only ever called -> the calls are
+    replaced by the lambda's body (pure arguments only)"""
+    from .normalize import _replace_node
+    cands = {}
+    for st in tree.body:
+        if isinstance(st, ast.Assign) and len(st.targets) == 1 and \
+                isinstance(st.targets[0], ast.Name) and \
+                st.targets[0].id.startswith("_") and isinstance(
+                    st.value, ast.Lambda) and not st.value.args.vararg \
+                and not st.value.args.kwarg and not st.value.args.defaults:
+            cands[st.targets[0].id] = st
+    for name, st in cands.items():
+        uses = [n for n in ast.walk(tree) if isinstance(n, ast.Name)
+                and n.id == name]
+        calls = [n for n in ast.walk(tree) if isinstance(n, ast.Call)
+                 and isinstance(n.func, ast.Name) and n.func.id == name]
+        if len(uses) != len(calls) + 1 or not calls:
+            continue
+        lam = st.value
+        params = [a.arg for a in lam.args.args]
+        ok = all(len(c.args) == len(params) and not c.keywords
+                 and all(_pure_arg(a) for a in c.args) for c in calls)
+        if not ok:
+            continue
+        for c in calls:
+            new = _SubstNames(dict(zip(params, c.args))).visit(
+                clone(lam.body))
+            ast.copy_location(new, c)
+            ast.fix_missing_locations(new)
+            _replace_node(tree, c, new)
+        tree.body = [s_ for s_ in tree.body if s_ is not st]
+
+
+def counted_while(fn):
+    """`c = K` + `while c > 0: c -= 1; BODY` (or the decrement last, no
+    continue) with c used nowhere else -> `for c in range(K): BODY`"""
+    for par in [fn] + list(_walk_own(fn)):
+        for fld in ("body", "orelse", "finalbody"):
+            blk = getattr(par, fld, None)
+            if not isinstance(blk, list):
+                continue
+            for i in range(len(blk) - 1):
+                st, wh = blk[i], blk[i + 1]
+                if not (isinstance(st, ast.Assign) and len(st.targets) == 1
+                        and isinstance(st.targets[0], ast.Name)
+                        and isinstance(st.value, ast.Constant)
+                        and isinstance(st.value.value, int)
+                        and not isinstance(st.value.value, bool)
+                        and st.value.value >= 0
+                        and isinstance(wh, ast.While) and not wh.orelse):
+                    continue
+                c = st.targets[0].id
+                t = wh.test
+                ok_test = (isinstance(t, ast.Name) and t.id == c) or (
+                    isinstance(t, ast.Compare) and len(t.ops) == 1
+                    and isinstance(t.left, ast.Name) and t.left.id == c
+                    and isinstance(t.comparators[0], ast.Constant)
+                    and ((isinstance(t.ops[0], ast.Gt)
+                          and t.comparators[0].value == 0)
+                         or (isinstance(t.ops[0], ast.GtE)
+                             and t.comparators[0].value == 1)
+                         or (isinstance(t.ops[0], ast.NotEq)
+                             and t.comparators[0].value == 0)))
+                if not ok_test or not wh.body:
+                    continue
+
+                def is_dec(s):
+                    return isinstance(s, ast.AugAssign) and isinstance(
+                        s.op, ast.Sub) and isinstance(
+                        s.target, ast.Name) and s.target.id == c and \
+                        isinstance(s.value, ast.Constant) and \
+                        s.value.value == 1
+                body = None
+                if is_dec(wh.body[0]):
+                    body = wh.body[1:]
+                elif is_dec(wh.body[-1]) and not any(
+                        isinstance(n, ast.Continue)
+                        for s in wh.body for n in ast.walk(s)):
+                    body = wh.body[:-1]
+                if body is None:
+                    continue
+                others = [n for n in ast.walk(fn) if isinstance(n, ast.Name)
+                          and n.id == c]
+                # the assignment, the test, the decrement target
+                if len(others) != 3:
+                    continue
+                loop = ast.For(
+                    target=ast.Name(id=c, ctx=ast.Store()),
+                    iter=ast.Call(func=ast.Name(id="range", ctx=ast.Load()),
+                                  args=[st.value], keywords=[]),
+                    body=body or [ast.Pass()], orelse=[], type_comment=None)
+                ast.copy_location(loop, wh)
+                ast.fix_missing_locations(loop)
+                blk[i:i + 2] = [loop]
+                return counted_while(fn) or True
+    return False
+
+
+def single_use_dicts(fn):
+    """`d = {...}` / `d = dict(k=v, ...)` used exactly once, as an argument
+    of a call in the very next statement -> the display is passed directly
+    (same evaluation order: nothing runs in between)."""
+    from .normalize import _replace_node
+    done = False
+    for par in [fn] + list(_walk_own(fn)):
+        for fld in ("body", "orelse", "finalbody"):
+            blk = getattr(par, fld, None)
+            if not isinstance(blk, list):
+                continue
+            i = 0
+            while i + 1 < len(blk):
+                st, nx = blk[i], blk[i + 1]
+                if isinstance(st, ast.Assign) and len(st.targets) == 1 and \
+                        isinstance(st.targets[0], ast.Name):
+                    v = st.value
+                    if isinstance(v, ast.Call) and isinstance(
+                            v.func, ast.Name) and v.func.id == "dict" and \
+                            not v.args and v.keywords and all(
+                                k.arg for k in v.keywords):
+                        v = ast.copy_location(ast.Dict(
+                            keys=[ast.Constant(value=k.arg)
+                                  for k in v.keywords],
+                            values=[k.value for k in v.keywords]), v)
+                        ast.fix_missing_locations(v)
+                    name = st.targets[0].id
+                    uses = [n for n in ast.walk(fn) if isinstance(n, ast.Name)
+                            and n.id == name]
+                    if isinstance(v, ast.Dict) and len(uses) == 2 and \
+                            isinstance(nx, (ast.Expr, ast.Assign, ast.Return)):
+                        site = [c for c in ast.walk(nx)
+                                if isinstance(c, ast.Call) and any(
+                                    a is u for u in uses for a in c.args)]
+                        # the call must be the first thing the statement
+                        # evaluates besides its receiver
+                        if len(site) == 1 and isinstance(
+                                nx, ast.Expr) and nx.value is site[0]:
+                            u = [a for a in site[0].args
+                                 if any(a is x for x in uses)][0]
+                            _replace_node(nx, u, v)
+                            del blk[i]
+                            done = True
+                            continue
+                i += 1
+    return done
+
+
+def flag_finally(fn):
+    """`ok = False` + `try: BODY; ok = True` + `finally: if not ok: CLEANUP`
+    (no handlers, no return/break/continue in BODY, `ok` used nowhere else)
+    -> `try: BODY` + `except BaseException: CLEANUP; raise`"""
+    done = False
+    for par in [fn] + list(_walk_own(fn)):
+        for fld in ("body", "orelse", "finalbody"):
+            blk = getattr(par, fld, None)
+            if not isinstance(blk, list):
+                continue
+            for i, tr in enumerate(blk):
+                if not (isinstance(tr, ast.Try) and not tr.handlers
+                        and not tr.orelse and len(tr.finalbody) == 1
+                        and isinstance(tr.finalbody[0], ast.If)
+                        and not tr.finalbody[0].orelse and tr.body):
+                    continue
+                fin = tr.finalbody[0]
+                t = fin.test
+                if not (isinstance(t, ast.UnaryOp) and isinstance(
+                        t.op, ast.Not) and isinstance(t.operand, ast.Name)):
+                    continue
+                flag = t.operand.id
+                last = tr.body[-1]
+                if not (isinstance(last, ast.Assign) and len(
+                        last.targets) == 1 and isinstance(
+                        last.targets[0], ast.Name) and last.targets[0].id ==
+                        flag and isinstance(last.value, ast.Constant)
+                        and last.value.value is True):
+                    continue
+                init = [s for s in blk[:i] if isinstance(s, ast.Assign)
+                        and len(s.targets) == 1 and isinstance(
+                            s.targets[0], ast.Name)
+                        and s.targets[0].id == flag and isinstance(
+                            s.value, ast.Constant) and s.value.value is False]
+                uses = [n for n in ast.walk(fn) if isinstance(n, ast.Name)
+                        and n.id == flag]
+                if len(init) != 1 or len(uses) != 3:
+                    continue
+                if any(isinstance(n, (ast.Return, ast.Break, ast.Continue))
+                       for s in tr.body for n in ast.walk(s)
+                       if not isinstance(s, (ast.FunctionDef, ast.Lambda))):
+                    continue
+                handler = ast.ExceptHandler(
+                    type=ast.Name(id="BaseException", ctx=ast.Load()),
+                    name=None, body=list(fin.body) + [ast.Raise(
+                        exc=None, cause=None)])
+                new = ast.Try(body=tr.body[:-1] or [ast.Pass()],
+                              handlers=[handler], orelse=[], finalbody=[])
+                ast.copy_location(new, tr)
+                ast.fix_missing_locations(new)
+                blk[i] = new
+                blk.remove(init[0])
+                done = True
+                break
+    return done
